@@ -339,6 +339,9 @@ impl Runner {
                     }
                 }
                 if (nm == b"UNSUBSCRIBE" || nm == b"PUNSUBSCRIBE") && nargs == 1 { canon_unsub_all(&nm.to_ascii_lowercase(), &mut frames); }
+                // confirmations of a queued unsubscribe-all are spliced into the EXEC reply in HashSet order
+                // (generators queue at most one (P)UNSUBSCRIBE per transaction, named ones with sorted names)
+                if nm == b"EXEC" { for f in frames.iter_mut() { if let V::Array(l) = f { canon_unsub_all(b"unsubscribe", l); canon_unsub_all(b"punsubscribe", l); } } }
                 let mut out = vec![i(closed)];
                 for f in canon_pushes(frames) { canon(f).enc(&mut out); }
                 if let Some(w) = odd { out.push(b(w)); }
